@@ -444,8 +444,44 @@ type genProxy struct {
 // drawName picks a requested name relative to a proxy: mostly names the proxy is plausibly entitled to
 // (implicit / own-namespace kubernetes://, its verified references, config maps), sometimes other
 // namespaces' names and hostile strings.
+// hostileName draws from the adversarial grammar of the parse stream, anchored at the proxy: a scheme, the
+// proxy's own (or another) namespace, a stored secret name, then extra path segments - with the `-cacert`
+// suffix in every position (namespace, name, extra/last segment) and empty / dotted segments.  These are the
+// names on which ResourceName, Name and Namespace of the parsed resource differ most.
+func hostileName(r *wire.Rng, p genProxy) string {
+	scheme := wire.Pick(r, []string{"kubernetes://", "kubernetes://", "kubernetes://", "kubernetes://", "kubernetes-gateway://", "configmap://"})
+	ns := p.ns
+	if r.Chance(1, 4) {
+		ns = wire.Pick(r, storeNs)
+	}
+	n := wire.Pick(r, storeNames)
+	suf := func(x string) string {
+		if r.Chance(1, 4) {
+			return x + "-cacert"
+		}
+		return x
+	}
+	extras := []string{"x-cacert", "-cacert", n + "-cacert", "x", "", "..", p.ns, "a", "x-cacert/y", "y/x-cacert", "tricky-cacert"}
+	var parts []string
+	switch r.Intn(8) {
+	case 0:
+		parts = []string{suf(n), wire.Pick(r, extras)} // implicit-looking name followed by a segment: first segment becomes the namespace
+	case 1:
+		parts = []string{suf(ns), n, wire.Pick(r, extras)}
+	default:
+		parts = []string{ns, suf(n)}
+		for i, k := 0, 1+r.Intn(2); i < k; i++ {
+			parts = append(parts, wire.Pick(r, extras))
+		}
+	}
+	return scheme + strings.Join(parts, "/")
+}
+
 func drawName(r *wire.Rng, p genProxy, universe, gwNames []string) string {
 	n := wire.Pick(r, storeNames)
+	if r.Chance(1, 6) {
+		return hostileName(r, p)
+	}
 	switch r.Intn(20) {
 	case 0, 1, 2, 3:
 		return "kubernetes://" + n
@@ -508,7 +544,11 @@ func genSDS(seed uint64, n int, outp string) {
 			case 1:
 				p.refs = "-"
 			default:
-				p.refs = wire.EncList(wire.Subset(r, gwNames, 1, 8))
+				refs := wire.Subset(r, gwNames, 1, 8)
+				for j, m := 0, r.Intn(3); j < m; j++ {
+					refs = append(refs, hostileName(r, p))
+				}
+				p.refs = wire.EncList(dedup(refs))
 			}
 			proxies = append(proxies, p)
 		}
